@@ -125,6 +125,13 @@ def owner(framing, context, front=None, **opts):
             global _DECOY
             _DECOY = construct({'broadcast_enable': not bool(opts.get('broadcast_enable', False)),
                                 'ignore_missing_slaves': not bool(opts.get('ignore_missing_slaves', False))}, _Ctx(slaves={}, single=False))
+            # ... and it serves vendor function codes and its own lenient version of FC3 (custom_functions): the first server's
+            # decoder must not learn them
+            try:
+                for c in _vendor_classes():
+                    _DECOY.decoder.register(c)
+            except Exception:  # noqa
+                pass
             return srv
     finally:
         if saved is not None:
@@ -138,8 +145,29 @@ def owner(framing, context, front=None, **opts):
 import atexit as _atexit, os as _os
 if _os.environ.get('VERIF_SHOW_CUTS'):
     _atexit.register(lambda: print('CUTS', CUTS[0], _os.getpid()))
+DEADLOCKS = [0]            # multi-connection runs of the threaded handlers that ended with all threads blocked for good
 EMPTY = 'empty-datagram'   # marker in a list of reads: a datagram without payload (datagram front-ends; ignored by the others)
 CUTS = [0]                 # reads longer than the size a handler asked for (delivered in pieces, as a socket does)
+
+
+_VENDOR = []
+
+
+def _vendor_classes():
+    if not _VENDOR:
+        from pymodbus.pdu import ModbusRequest
+        from pymodbus.register_read_message import ReadHoldingRegistersRequest, ReadHoldingRegistersResponse
+
+        def mk(fc):
+            ns = {'function_code': fc, '_rtu_frame_size': 4, '__init__': lambda self, **k: ModbusRequest.__init__(self, **k), 'encode': lambda self: b'',
+                  'decode': lambda self, data: None, 'execute': lambda self, ctx: ReadHoldingRegistersResponse([0xBEEF])}
+            return type('VendorRequest_%02x' % fc, (ModbusRequest,), ns)
+
+        class LenientRead(ReadHoldingRegistersRequest):
+            def execute(self, context):
+                return ReadHoldingRegistersResponse([0xBEEF] * min(self.count, 3))
+        _VENDOR.extend([mk(0x41), mk(0x55), mk(0x64), LenientRead])
+    return _VENDOR
 
 
 class FakeSock(object):
@@ -570,6 +598,11 @@ def feed_multi(front, framing, context, conns, order, **opts):
     next chunk is delivered next.  Returns one Result per connection.  Only stream front-ends."""
     results = [Result() for _ in conns]
     queues = [list(c) for c in conns]
+    if DEADLOCKS[0] >= 3 and front in ('sync-tcp', 'sync-serial'):
+        # the handler threads of this process keep blocking for good (each run leaves its blocked threads behind): no further runs
+        for res in results:
+            res.stuck, res.deadlock = True, True
+        return results
     if front == 'tw-tcp':
         from twisted.test import proto_helpers
         fac = _tw_build('factory', context, framing, opts)
@@ -695,5 +728,20 @@ def feed_multi(front, framing, context, conns, order, **opts):
         if st != 'OK':
             for res in results:
                 res.stuck = True
+                # DEADLOCK: every handler thread that is still alive sits in a blocking call the doubles do not make (they never
+                # block) - a lock of the code under test that nobody will release
+                res.deadlock = False
+            if st == 'DEADLOCK':
+                # confirm: give the blocked threads eight more seconds of wall clock (a loaded machine can starve a thread for a while);
+                # only if none of them has moved is it a deadlock
+                import time as _time
+                snap = (set(sched.parked), set(sched.done))
+                t_end = _time.time() + 8.0
+                while _time.time() < t_end and (set(sched.parked), set(sched.done)) == snap:
+                    _time.sleep(0.25)
+                if (set(sched.parked), set(sched.done)) == snap:
+                    DEADLOCKS[0] += 1
+                    for res in results:
+                        res.deadlock = True
         return results
     raise ValueError(front)
